@@ -16,6 +16,7 @@ Inductive tok :=
 | TSkip.                     (* model does not predict this token *)
 
 Definition RC_UNMODELLED : Z := -7777.
+Definition RC_ANY : Z := -7776.   (* return code not predicted (data undefined); extras are *)
 
 (* ---------- requests ---------- *)
 Inductive bufspec :=
@@ -148,7 +149,7 @@ Definition do_create (w : world) (slot fmt clobber : Z) : world * list obs :=
                     (w_hints w) (map (fun _ => rank_init 0) (all_ranks w)) slot false in
     let files := if id <? Zlen (w_files w) then zupd (w_files w) id (Some f)
                  else w_files w ++ [Some f] in
-    let w1 := set_disk w slot (mkdisk true 0 (fun _ => 0)) in
+    let w1 := set_disk w slot (mkdisk true 0 (fun _ => UNDEF)) in
     let w2 := set_hints (set_ids (set_files w1 files) (zupd (w_ids w) slot id)) no_align in
     (w2, same_all w NC_NOERR [TZ id]).
 
@@ -250,7 +251,10 @@ Definition do_enddef (w : world) (id : Z) (f : filest) (ea : enddef_args)
     let e := check_vlens h in
     if negb (e =? NC_NOERR) then Some (w, e)
     else
-      let nfix := Zlen (h_vars h) - num_rec_vars h in
+      (* the code uses ncp->vars.num_rec_vars as it was BEFORE this enddef recounts it: 0 on a
+         newly created file, the old header's count after a redef *)
+      let stale_nrec := match f_old f with Some (oh, _) => num_rec_vars oh | None => 0 end in
+      let nfix := Zlen (h_vars h) - stale_nrec in
       let is_new := match f_old f with None => true | Some _ => false end in
       let '(ha, _, ra) := resolve_align (f_align f) ea nfix is_new in
       let oldinfo := match f_old f with
@@ -335,6 +339,10 @@ Definition buf_nelems (b : bufspec) : option Z :=
   | _ => None
   end.
 
+(* the driver's nelems: product of counts, 1 when some count is negative *)
+Definition nelems_or1 (r : rreq) : Z :=
+  if existsb (fun c => c <? 0) (rq_count r) then 1 else nelems_of r.
+
 (* extent in elements of the user buffer *)
 Definition buf_extent_elems (b : bufspec) (r : rreq) : Z :=
   match b with
@@ -345,8 +353,8 @@ Definition buf_extent_elems (b : bufspec) (r : rreq) : Z :=
       | Some im =>
           if forallb (fun c => c >? 0) (rq_count r) && forallb (fun m => m >=? 0) im
           then 1 + zsum (map (fun p => (fst p - 1) * snd p) (zip (rq_count r) im))
-          else Z.max 1 (nelems_of r)
-      | None => Z.max 1 (nelems_of r)
+          else nelems_or1 r
+      | None => nelems_or1 r
       end
   end.
 
@@ -470,12 +478,12 @@ Definition buf_extent_list (b : bufspec) (rs : list rreq) : Z :=
   | [r] => buf_extent_elems b r
   | _ => match b with
          | BContig _ | BVector _ _ _ => buf_extent_elems b (mkrreq [] [] None None)
-         | _ => Z.max 1 (total_elems rs)
+         | _ => total_elems rs
          end
   end.
 
 Definition get_into_buffer (a : access) (xt : Z) (rs : list (Z * rreq * list byte))
-  : option (list byte * bool) :=
+  : option (list byte * bool * bool) :=      (* buffer, erange?, some element undefined? *)
   let memt := eff_memt a xt in
   let xsz := xlen_type xt in
   let msz := mem_size memt in
@@ -488,15 +496,18 @@ Definition get_into_buffer (a : access) (xt : Z) (rs : list (Z * rreq * list byt
     fold_left (fun acc pe =>
                match acc with
                | None => None
-               | Some (buf, er) =>
+               | Some (buf, er, unk) =>
+                   let at_ := GUARD + buf_index (ac_buf a) (k0 + fst pe) * msz in
+                   if existsb is_undef (snd pe)
+                   then Some (poke buf at_ (repeat UNDEF (Z.to_nat msz)), er, true)
+                   else
                    match convert xt memt (snd pe) with
                    | None => None
-                   | Some (be, e) =>
-                       Some (poke buf (GUARD + buf_index (ac_buf a) (k0 + fst pe) * msz) (mem_of_be be), er || e)
+                   | Some (be, e) => Some (poke buf at_ (mem_of_be be), er || e, unk)
                    end
                end)
             (zip pos elems) acc0)
-    rs (Some (buf0, false)).
+    rs (Some (buf0, false, false)).
 
 Definition disk_of (w : world) (f : filest) : disk := get_disk w (f_slot f).
 
@@ -569,7 +580,8 @@ Definition get_rank_op (w : world) (f : filest) (rank : Z) (coll : bool) (a : ac
                  (fst kr, r, dk_gather (disk_of w f) (g_xsz g) offs)) (with_bases rs 0) in
           match get_into_buffer a xt parts with
           | None => (RC_UNMODELLED, [TSkip])
-          | Some (buf, er) => ((if er then NC_ERANGE else NC_NOERR), [THex buf])
+          | Some (buf, er, unk) =>
+              ((if unk then RC_ANY else if er then NC_ERANGE else NC_NOERR), [THex buf])
           end
     end.
 
@@ -741,7 +753,7 @@ Definition do_close (w : world) (id : Z) (f : filest) : option (world * list obs
               let d' := match h_vars (f_hdr f2) with
                         | [] => if negb (f_rdonly f2) && (dk_size d >? l_xsz (f_lay f2))
                                 then mkdisk true (l_xsz (f_lay f2))
-                                            (fun x => if x <? l_xsz (f_lay f2) then dk_get d x else 0)
+                                            (fun x => if x <? l_xsz (f_lay f2) then dk_get d x else UNDEF)
                                 else d
                         | _ => d end in
               Some (put_file (set_disk w2 (f_slot f2) d') id None, obs)
@@ -823,7 +835,7 @@ Definition exec_all (w : world) (o : op) : world * list obs :=
                           else (r, 0, [])) ranks)
       else (w, same_all w (-1) [])
   | OJunk f n seed =>
-      (set_disk w f (mkdisk true n (fun x => if (0 <=? x) && (x <? n) then (seed + x * 13) mod 251 + 1 else 0)),
+      (set_disk w f (mkdisk true n (fun x => if (0 <=? x) && (x <? n) then (seed + x * 13) mod 251 + 1 else UNDEF)),
        same_all w 0 [])
   | ODefDim _ nm len =>
       with_file (fun id f => match do_def_dim f nm len with
